@@ -66,7 +66,7 @@ Definition leaf_wf (l : leaf) : bool :=
   | LText s => clean s
   | LVar x | LOpt x | LInc x => word x
   | LDot => true
-  | LPipe x w => word x && nonempty w && clean w && (negb (is_filter w) || modelled_filter w)
+  | LPipe x w => word x && nonempty w && clean w
   end.
 Definition node_wf (n : node) : bool :=
   match n with
@@ -85,9 +85,12 @@ Definition item_ok (i n : nat) (it : item) : bool :=
   forallb (fun kv => nosent (snd kv) && key_ok (fst kv)) (loop_context i n it).
 Fixpoint items_ok (n i : nat) (l : list item) : bool :=
   match l with [] => true | it :: r => item_ok i n it && items_ok n (S i) r end.
+(* the pre-rendered json.dumps() text of a float / tuple item *)
+Definition item_json_ok (it : item) : bool :=
+  match it with IOpaque _ _ j => nosent j | _ => true end.
 Definition value_ok (v : value) : bool :=
   nosent (str_value v) &&
-  match seq_of v with Some l => items_ok (length l) O l | None => true end.
+  match seq_of v with Some l => items_ok (length l) O l && forallb item_json_ok l | None => true end.
 Definition ctx_ok (c : ctx) : bool := forallb (fun kv => value_ok (snd kv)) c.
 
 (* ------------------------------------------------------------------ *)
@@ -103,6 +106,7 @@ Definition sconcat (l : list sres) : sres := fold_right sapp (SOk [] []) l.
 Definition unknown_marker (n : str) : str := S_UNKNOWN ++ n ++ [93].
 
 Section Render.
+  Context {F : FTable}.
   Variable strict : bool.
   Variable c : ctx.
   Variable inc : str -> sres.     (* rendering of an included template *)
@@ -161,7 +165,7 @@ Section Render.
   Definition render_nodes (t : template) : sres := sconcat (map render_node t).
 End Render.
 
-Fixpoint render_tpl (fuel : nat) (strict : bool) (T : list (str * template)) (c : ctx) (t : template) : sres :=
+Fixpoint render_tpl {F : FTable} (fuel : nat) (strict : bool) (T : list (str * template)) (c : ctx) (t : template) : sres :=
   match fuel with
   | O => SErr EFuel
   | S f => render_nodes strict c
@@ -171,7 +175,7 @@ Fixpoint render_tpl (fuel : nat) (strict : bool) (T : list (str * template)) (c 
                        end) t
   end.
 
-Definition render_spec (strict : bool) (T : list (str * template)) (c : ctx) (t : template) : sres :=
+Definition render_spec {F : FTable} (strict : bool) (T : list (str * template)) (c : ctx) (t : template) : sres :=
   render_tpl (S (length T)) strict T c t.
 
 Definition print_templates (T : list (str * template)) : list (str * str) :=
